@@ -133,6 +133,11 @@ def same_type_ratios(ctx, T, db, rows):
         # prefer pairs written with different divisors in the table (a rate per hour against a rate per minute)
         cands.sort(key=lambda u: (getattr(db.unit_to_unit_info[u].tobase, "__c__", 1.0), u))
         pairs = [(cands[0], cands[-1]), (cands[len(cands) // 2], cands[0])] if len(cands) >= 2 else []
+        # units with an offset (degC, degF, the gauge pressures) meet other units of their type as *intervals* in a product: the
+        # ratio is the ratio of the slopes, whichever of the two is the one re-expressed
+        offs = [r["unit"] for r in lst if r["unit"] in T.aff and T.aff[r["unit"]].off != 0.0 and T.aff[r["unit"]].exact]
+        for o_ in offs:
+            pairs += [(o_, base), (base, o_)] + ([(o_, cands[0]), (cands[-1], o_)] if cands else []) + [(o_, p_) for p_ in offs if p_ != o_][:2]
         for u1, u2 in pairs:
             if u1 == u2:
                 continue
@@ -142,6 +147,8 @@ def same_type_ratios(ctx, T, db, rows):
                 ("x * (1/y)", lambda: Scalar(1.0, u1) * (1.0 / Scalar(1.0, u2)), f),
                 ("(1/y2) * x2", lambda: (1.0 / (Scalar(1.0, u2) * Scalar(1.0, u2))) * (Scalar(1.0, u1) * Scalar(1.0, u1)), f * f),
                 ("x3 / y3", lambda: (Scalar(1.0, u1) ** 3) / (Scalar(1.0, u2) ** 3), f**3),
+                ("(1/y) * x", lambda: (1.0 / Scalar(1.0, u2)) * Scalar(1.0, u1), f),
+                ("(z/y) * x", lambda: (Scalar(3.0, "s") / Scalar(1.0, u2)) * Scalar(1.0, u1) / Scalar(3.0, "s"), f),
             ):
                 ctx.ev()
                 n += 1
@@ -270,6 +277,31 @@ def run(ctx):
                         )  # fmt: skip
                 # (a row with a temperature among its parts is compared through the table only: its parts are intervals - 1 degC per metre is
                 # 1 K per metre - while a Scalar in degC is a temperature, so composing Scalars is no reading of such a row)
+                if r.get("interval_parts") and all(e < 0 for _pre, s, e in r["parts"] if s in T.aff and T.aff[s].off != 0.0):
+                    # ... except that a temperature *below the line* is an interval for the arithmetic too (1 / degF is 1.8 / K): the row's
+                    # parts multiplied and divided as Scalars, divided by the same composition in base units, leave the row's factor
+                    try:
+                        acc = bacc = None
+                        for pre, s, e in r["parts"]:
+                            leaf, bleaf = Scalar(pre, s), Scalar(1.0, db.GetBaseUnit(infos[s].quantity_type))
+                            for _ in range(abs(e)):
+                                acc = (leaf if e > 0 else 1.0 / leaf) if acc is None else (acc * leaf if e > 0 else acc / leaf)
+                                bacc = (bleaf if e > 0 else 1.0 / bleaf) if bacc is None else (bacc * bleaf if e > 0 else bacc / bleaf)
+                        ctx.ev()
+                        ctx.count("rows with a temperature below the line composed as Scalars and divided by their base units")
+                        for amount in (1.0, 2.5):
+                            q_ = (acc * amount) / bacc
+                            named = db.Convert(qt, r["unit"], base, amount)
+                            limit = max(K_TOL * (r["tol"] + (ref["tol"] if ref is not r else 0.0)), FLOOR_REL)
+                            got_ = float(q_.GetValue()) * ref["k"] if not q_.GetUnit() else None
+                            if r["unit"] in off_rows:
+                                continue  # the row itself is off (reported, or listed as known, by the table comparison above)
+                            if got_ is None or not abs(got_ / named - 1) <= limit:
+                                ctx.violation("row:%s:composed-with-a-temperature-below-the-line-differs" % r["unit"].replace(" ", "_"), {"row": r["unit"], "amount": amount, "named_row_in_base_units": named, "composition_over_base_units": repr(q_)[:120],
+                                                                                                                                   "limit": limit}, replay={"row": r["unit"]})  # fmt: skip
+                                break
+                    except Exception as e:
+                        ctx.violation("dynamic-raised:%s" % r["unit"].replace(" ", "_"), {"row": r["unit"], "error": repr(e)[:200]}, replay={"row": r["unit"]})
                 if not r.get("interval_parts"):
                     # dynamic half: compose the same amount with barril's own arithmetic
                     try:
